@@ -44,9 +44,10 @@ func (s *Server) filterDNSRequest(dctx *dnsContext) (res *filtering.Result, err 
 		dctx.origQuestion = q
 		req.Question[0].Name = dns.Fqdn(res.CanonName)
 
-		// The name to resolve has changed, so it must be decided anew whether
-		// it belongs to the DHCP server.
-		dctx.isDHCPHost = s.dhcpHostFromRequest(&req.Question[0]) != ""
+		// The name to resolve has changed, and the stage that answers for the
+		// DHCP server has been passed already.  Resolve the new name like any
+		// other canonical name, whatever the original one was.
+		dctx.isDHCPHost = false
 	case res.IsFiltered:
 		log.Debug("dnsforward: host %q is filtered, reason: %q", host, res.Reason)
 		pctx.Res = s.genDNSFilterMessage(pctx, res)
